@@ -8,8 +8,9 @@ import importlib, sys
 sys.path.insert(0, os.path.join(HERE, "harness"))
 CLAIMED = {}
 NOT_CLAIMED_REASON = {}
+READY = set(open(os.path.join(HERE, "harness", "claimed.txt")).read().split())  # maintained by hand: checks validated on the unchanged tree
 for i in ids:
-    if os.path.exists(os.path.join(HERE, "harness", "checks", i + ".py")):
+    if i in READY and os.path.exists(os.path.join(HERE, "harness", "checks", i + ".py")):
         mod = importlib.import_module("checks." + i)
         if getattr(mod, "MANIFEST", None):
             CLAIMED[i] = mod.MANIFEST
